@@ -54,6 +54,45 @@ var configs = [][]string{
 	{"1C"},
 }
 
+// nBase hand-picked configurations come first; behind them init() appends every ordered
+// arrangement of every subset of {1A,1B,1C,2A,2B} (the issuer list is variadic: its order and
+// interleaving of types is the operator's choice) and the configurations with a rotating issuer.
+var nBase, nArr int
+
+func init() {
+	nBase = len(configs)
+	all := []string{"1A", "1B", "1C", "2A", "2B"}
+	var rec func(cur []string, used int)
+	rec = func(cur []string, used int) {
+		configs = append(configs, append([]string{}, cur...))
+		for i, n := range all {
+			if used&(1<<i) == 0 {
+				rec(append(cur, n), used|1<<i)
+			}
+		}
+	}
+	rec(nil, 0)
+	nArr = len(configs)
+	// "1R": one type-1 issuer OBJECT whose key is A during the previous batch and B from then on
+	configs = append(configs, []string{"1R", "2A"}, []string{"2A", "1R"}, []string{"1R"}, []string{"1C", "1R", "2B"})
+}
+
+// rotIssuer is an issuer whose token key is rotated by its operator between two batches.
+type rotIssuer struct {
+	cur  *int
+	a, b bx.Issuer1
+}
+
+func (x rotIssuer) pick() bx.Issuer1 {
+	if *x.cur == 0 {
+		return x.a
+	}
+	return x.b
+}
+func (x rotIssuer) Evaluate(req tokens.TokenRequest) ([]byte, error) { return x.pick().Evaluate(req) }
+func (x rotIssuer) TokenKeyID() []byte                                { return x.pick().TokenKeyID() }
+func (x rotIssuer) Type() uint16                                      { return 1 }
+
 type Case struct {
 	Config  int   `json:"config"`
 	Letters []int `json:"letters"`
@@ -188,9 +227,9 @@ func has(cfg []string, name string) bool {
 func expectPresent(cfg []string, letter int) bool {
 	switch letter {
 	case t1A:
-		return has(cfg, "1A")
+		return has(cfg, "1A") // a rotating issuer has left key A behind when the judged batch arrives
 	case t1B:
-		return has(cfg, "1B")
+		return has(cfg, "1B") || has(cfg, "1R")
 	case t1C:
 		return has(cfg, "1C")
 	case t2A:
@@ -207,8 +246,11 @@ func run(c Case) (string, *mc.Viol) {
 	w := buildWorld()
 	cfg := configs[c.Config]
 	var issuers []batched.Issuer
+	rot := 0
 	for _, name := range cfg {
 		switch name {
+		case "1R":
+			issuers = append(issuers, rotIssuer{cur: &rot, a: bx.Issuer1{I: w.w1[0].Issuer}, b: bx.Issuer1{I: w.w1[1].Issuer}})
 		case "1A":
 			issuers = append(issuers, bx.Issuer1{I: w.w1[0].Issuer})
 		case "1B":
@@ -235,6 +277,7 @@ func run(c Case) (string, *mc.Viol) {
 			}
 		}
 	}
+	rot = 1
 	slots := make([]slot, len(c.Letters))
 	var list []tokens.TokenRequestWithDetails
 	for i, l := range c.Letters {
@@ -374,13 +417,14 @@ func main() {
 		r.Note("key alphabet has colliding truncated ids; configurations with two issuers per type are skipped")
 		r.NotExhaustive("colliding truncated key ids in the key alphabet")
 		configs = [][]string{configs[0], configs[1], configs[2], configs[3], configs[6], configs[7], configs[9]}
+		nBase, nArr = len(configs), len(configs)
 	}
 	n := mc.Pick(r, 3, 4)
 	var cases []Case
 	var build func(cur []int)
 	build = func(cur []int) {
 		if len(cur) > 0 {
-			for ci := range configs {
+			for ci := 0; ci < nBase; ci++ {
 				cases = append(cases, Case{Config: ci, Letters: append([]int{}, cur...)})
 			}
 		}
@@ -411,6 +455,26 @@ func main() {
 			}
 		}
 	}
+	// every arrangement of every issuer subset: one probe batch with a request for each key (and the
+	// same reversed, and each request alone) must reach exactly the configured issuers
+	for ci := nBase; ci < nArr; ci++ {
+		probe := []int{t1A, t1B, t1C, t2A, t2B}
+		cases = append(cases, Case{Config: ci, Letters: probe}, Case{Config: ci, Letters: []int{t2B, t2A, t1C, t1B, t1A}})
+		if r.Thorough() {
+			for _, l := range probe {
+				cases = append(cases, Case{Config: ci, Letters: []int{l}})
+			}
+		}
+	}
+	// an issuer object whose key was rotated after an earlier batch: the batch issuer must select by
+	// the key id the issuer reports NOW
+	for ci := nArr; ci < len(configs); ci++ {
+		for _, prev := range [][]int{{t1A}, {t1A, t2A}, {t1B}, {t1Unknown}} {
+			for _, cur := range [][]int{{t1B}, {t1A}, {t1B, t1A}, {t1A, t2A, t1B}, {t1C, t1B}} {
+				cases = append(cases, Case{Config: ci, Letters: cur, Prev: prev})
+			}
+		}
+	}
 	// large homogeneous batches: the encoded response list crosses the varint class boundaries
 	// (16383/16384 bytes at 64 type-2 / 113 type-1 entries) and 2^16 (254 type-2 / 449 type-1)
 	big := map[int][]int{t2A: mc.Pick(r, []int{63, 64, 254}, []int{63, 64, 65, 253, 254, 255, 300}), t1A: mc.Pick(r, []int{112, 113, 449}, []int{112, 113, 114, 448, 449, 450})}
@@ -424,11 +488,11 @@ func main() {
 			cases = append(cases, Case{Config: 0, Letters: ls})
 		}
 	}
-	r.SetRule(fmt.Sprintf("every sequence of length 1..%d over the 9-letter request alphabet {type1,type2} x {key A, key B, unknown truncated key id, malformed blinded element} plus a type-1 key C whose truncated id equals that of the type-2 key A x every one of %d issuer configurations (both types, one type, none, two issuers per type in both orders); unsupported type = configuration lacking that type. Cases are distinct tuples; non-trivial = batch with at least one request", n, len(configs)))
+	r.SetRule(fmt.Sprintf("every sequence of length 1..%d over the 9-letter request alphabet {type1,type2} x {key A, key B, unknown truncated key id, malformed blinded element} plus a type-1 key C whose truncated id equals that of the type-2 key A x every one of %d hand-picked issuer configurations (both types, one type, none, two issuers per type in both orders); every ordered arrangement of every subset of five issuers x a probe batch with one request per key; issuer objects whose key was rotated between two batches; unsupported type = configuration lacking that type. Cases are distinct tuples; non-trivial = batch with at least one request", n, nBase))
 	r.Assume("issuer configurations in which two issuers of one type share a truncated key id are excluded (the protocol cannot tell which key the client meant)",
 		"reference model: entry present iff a configured issuer of the request's type and truncated key id exists and the blinded element is well-formed",
 		"issuers are adapted to the batch Issuer interface exactly as the repository's tests do")
-	r.Set("dimensions", map[string]any{"max_batch": n, "letters": letterName, "configs": configs})
+	r.Set("dimensions", map[string]any{"max_batch": n, "letters": letterName, "configs": configs[:nBase], "arrangement_configs": nArr - nBase, "rotating_issuer_configs": configs[nArr:]})
 	r.Par(len(cases), func(i int) {
 		if r.OutOfTime() {
 			r.NotExhaustive("time budget")
